@@ -253,6 +253,27 @@ an argument that is not UTF-8; accepted pairs are handed on as given, in order. 
 def parseMetadataValues (pairs : List (Bytes × Bytes)) : Parsed (List (Bytes × Bytes)) :=
   if pairs.all (fun e => Proto.utf8Valid e.1 && Proto.utf8Valid e.2) then .ok pairs else .refused
 
+/-! ### metadata (`compress_cmd`: "Construct custom metadata hashmap") -/
+
+/-- `String`'s `Ord`: byte-wise lexicographic on the UTF-8 bytes. -/
+def keyLt (a b : Bytes) : Bool := decide ((a.map (·.toNat)) < (b.map (·.toNat)))
+
+/-- `BTreeMap::insert` on an association list kept ascending by key: an existing key gets the new
+value, a new key goes to its place. -/
+def metaInsert (m : List (Bytes × Bytes)) (k v : Bytes) : List (Bytes × Bytes) :=
+  match m with
+  | [] => [(k, v)]
+  | (k', v') :: rest =>
+    if k = k' then (k, v) :: rest
+    else if keyLt k k' then (k, v) :: (k', v') :: rest
+    else (k', v') :: metaInsert rest k v
+
+/-- The map `compress_cmd` builds: every `--metadata-value` pair in order, then every
+`--metadata-file` pair (key, file content) in order; a later pair replaces an earlier one with the
+same key. -/
+def metadataOf (strings files : List (Bytes × Bytes)) : List (Bytes × Bytes) :=
+  (strings ++ files).foldl (fun m e => metaInsert m e.1 e.2) []
+
 /-! ### `bita clone` -/
 
 /-- What the environment answers about the ARCHIVE text (`parse_input_archive_config`): the path
